@@ -40,6 +40,9 @@ func c08(c *Ctx) {
 	c08R13(c)
 	c08R14(c)
 	noSendUnderConsensusLock(c, "R15")
+	shared(c, "C15", func(c *Ctx) { verifyCommitRule(c, "R7") })
+	shared(c, "C18", c18R2)
+	shared(c, "C20", c20R6)
 }
 
 func c08R4(c *Ctx) {
